@@ -429,6 +429,7 @@ func main() {
 	maxOps := flag.Int("len", 40, "max ops per sequence")
 	stream := flag.Uint64("stream", 0, "PRNG stream")
 	noServer := flag.Bool("noserver", false, "skip part C")
+	clusterSecs := flag.Int("cluster", 0, "thorough tier: seconds of three-server load with allocator moves (streams 0 mod 4 only)")
 	flag.Parse()
 
 	t := trace.Create(*out)
@@ -470,6 +471,9 @@ func main() {
 			} else {
 				o += " | " + suffixTable(p.svr)
 			}
+		case "cluster":
+			secs, _ := strconv.Atoi(f[1])
+			o = runCluster(secs)
 		default:
 			o = "bad-op"
 		}
@@ -490,6 +494,11 @@ func main() {
 		return
 	}
 	r := rng.FromEnv(*stream)
+	if *clusterSecs > 0 && *stream%4 == 0 {
+		// D. three servers, real clock, allocator moves under load (before the clock is frozen)
+		t.Line("reset", "ok")
+		t.Line(fmt.Sprintf("cluster %d", *clusterSecs), runCluster(*clusterSecs))
+	}
 	// A. pure functions
 	run("reset")
 	for v := 0; v <= 40; v++ {
